@@ -59,6 +59,7 @@ def showItem : BodyItem → String
   | .webTrailer b => "web:" ++ showHeader b
   | .raw d => "raw:" ++ hexOut' d
   | .errorJSON w => "ej:" ++ showWireErr w
+  | .errorJSONz w => "ejz:" ++ showWireErr w
 
 def parseItem (s : String) : Option BodyItem :=
   match s.splitOn ":" with
@@ -72,6 +73,7 @@ def parseItem (s : String) : Option BodyItem :=
   | ["web", b] => (parseHeader b).map .webTrailer
   | ["raw", d] => (hexArg' d).map .raw
   | ["ej", e] => (parseWireErr e).map .errorJSON
+  | ["ejz", e] => (parseWireErr e).map .errorJSONz
   | _ => none
 
 def showBody (b : List BodyItem) : String := if b.isEmpty then "-" else ",".intercalate (b.map showItem)
